@@ -115,6 +115,14 @@ class Ctx(object):
         if not self.concrete:
             self.interp.native.add(fn)
 
+    def attr(self, elt, key):
+        """The value of an lxml attribute: the ghost (symbolic) text if the code under contract set one."""
+        if not self.concrete:
+            g = self.interp.ghost_attrs.get(id(elt))
+            if g is not None and key in g[1]:
+                return g[1][key]
+        return elt.get(key)
+
 
 # ---------------------------------------------------------------------------------------------
 
